@@ -49,6 +49,18 @@ class RecApp(Application):
             self.h.log("app_answer_submit", app=self.tag, hbh=m.header.hop_by_hop_identifier,
                        e2e=m.header.end_to_end_identifier)
             self.send_answer(ans)
+        elif b == "answer_rewrite":
+            # a relaying application: builds its answer, then rewrites Origin-Host on the request object it was handed
+            # (to pass it on upstream) before the answer leaves.  Who sent the request does not change by that
+            ans = self.build_answer(m, 2001)
+            m.origin_host = b"rewritten.by.application.example"
+            self.h.log("app_answer_submit", app=self.tag, hbh=m.header.hop_by_hop_identifier,
+                       e2e=m.header.end_to_end_identifier)
+            try:
+                self.send_answer(ans)
+            except Exception as e:
+                self.h.log("app_answer_result", app=self.tag, hbh=m.header.hop_by_hop_identifier,
+                           e2e=m.header.end_to_end_identifier, exc=type(e).__name__)
         elif b == "defer":
             self.deferred.append(m)
         elif b == "raise":
